@@ -12,8 +12,8 @@ def simple_layout(chain, file=0, status=ACTIVE):
     return [Placement(b, h, file=file, status=status) for h, b in chain]
 
 
-def cli(binary, datadir, coin, callback, dump=None, start=None, end=None, verify=False, verbosity=0, omit_coin=False):
-    argv = [binary, "-d", datadir] + ([] if omit_coin else ["-c", coin])      # without -c the tool parses Bitcoin
+def cli(binary, datadir, coin, callback, dump=None, start=None, end=None, verify=False, verbosity=0, omit_coin=False, coin_spelling=None):
+    argv = [binary, "-d", datadir] + ([] if omit_coin else ["-c", coin_spelling or coin])      # without -c the tool parses Bitcoin
     if verify:
         argv.append("--verify")
     if verbosity:
@@ -44,7 +44,7 @@ def surroundings(datadir, coin, callback, start, end, verify):
     return (h % 3 == 0), (0, 0, 0, 0, 1, 2)[(h >> 8) % 6], (None, None, "1", None, "2", "3")[(h >> 16) % 6]
 
 
-def run_cb(binary, datadir, coin, callback, dump=None, start=None, end=None, verify=False, env=None, log=None, vary=True, omit_coin=False, **kw):
+def run_cb(binary, datadir, coin, callback, dump=None, start=None, end=None, verify=False, env=None, log=None, vary=True, omit_coin=False, coin_spelling=None, **kw):
     if dump:
         os.makedirs(dump, exist_ok=True)
     e = dict(env or {})
@@ -59,7 +59,9 @@ def run_cb(binary, datadir, coin, callback, dump=None, start=None, end=None, ver
         for name in TMP_NAMES.get(callback, []):
             with open(os.path.join(dump, name), "w") as f:
                 f.write(STALE_ROW * 400)
-    p = run(cli(binary, datadir, coin, callback, dump, start, end, verify, verbosity=verbosity, omit_coin=omit_coin), env=e, **kw)
+            if kw.get("user"):
+                os.chown(os.path.join(dump, name), *kw["user"])     # left over by an earlier run of the same account
+    p = run(cli(binary, datadir, coin, callback, dump, start, end, verify, verbosity=verbosity, omit_coin=omit_coin, coin_spelling=coin_spelling), env=e, **kw)
     if p.timed_out:
         raise Inconclusive("watchdog fired for %s" % callback)
     if "LockError" in (p.err or "") or "LockError" in (p.out or ""):
